@@ -17,7 +17,7 @@ enum COp {
     Push(u64), PushS(Vec<u64>), PushZeroCopy(Vec<u64>),
     Pop, CopyItem, CopyS(usize), PeekAdv(usize), PeekOneAdv,
     Work(usize), WorkAvail, WorkOne,
-    Reset, Avail, DropIt, CopyUntil(usize), PushUntil(Vec<u64>),
+    Reset, Avail, Alive, DropIt, CopyUntil(usize), PushUntil(Vec<u64>),
     DetWork { adv: usize, back: usize },
 }
 
@@ -29,7 +29,7 @@ impl COp {
             COp::Pop => "pop".into(), COp::CopyItem => "copy1".into(), COp::CopyS(n) => format!("copys {n}"), COp::PeekAdv(n) => format!("peekadv {n}"), COp::PeekOneAdv => "peek1adv".into(),
             COp::Work(n) => format!("work {n}"), COp::WorkAvail => "workavail".into(), COp::WorkOne => "workone".into(),
             COp::CopyUntil(n) => format!("copyuntil {n}"), COp::PushUntil(v) => format!("pushuntil {}", v.iter().map(|x| x.to_string()).collect::<Vec<_>>().join(" ")),
-            COp::Reset => "reset".into(), COp::Avail => "avail".into(), COp::DropIt => "drop".into(), COp::DetWork { adv, back } => format!("detwork {adv} {back}"),
+            COp::Reset => "reset".into(), COp::Avail => "avail".into(), COp::Alive => "alive".into(), COp::DropIt => "drop".into(), COp::DetWork { adv, back } => format!("detwork {adv} {back}"),
         }
     }
     fn parse(l: &str) -> Option<COp> {
@@ -41,7 +41,7 @@ impl COp {
             ["pop"] => COp::Pop, ["copy1"] => COp::CopyItem, ["copys", k] => COp::CopyS(n(k)?), ["peekadv", k] => COp::PeekAdv(n(k)?), ["peek1adv"] => COp::PeekOneAdv,
             ["work", k] => COp::Work(n(k)?), ["workavail"] => COp::WorkAvail, ["workone"] => COp::WorkOne,
             ["copyuntil", k] => COp::CopyUntil(n(k)?), ["pushuntil", r @ ..] => COp::PushUntil(list(r)?),
-            ["reset"] => COp::Reset, ["avail"] => COp::Avail, ["drop"] => COp::DropIt, ["detwork", a, b] => COp::DetWork { adv: n(a)?, back: n(b)? },
+            ["reset"] => COp::Reset, ["avail"] => COp::Avail, ["alive"] => COp::Alive, ["drop"] => COp::DropIt, ["detwork", a, b] => COp::DetWork { adv: n(a)?, back: n(b)? },
             _ => return None,
         })
     }
@@ -140,6 +140,8 @@ fn run_prod(p: ProdIter<'static, Buf>, ops: Vec<COp>, logs: Arc<Mutex<Logs>>, le
                 }
             }
             COp::Avail => { let _ = p.available(); }
+            // looks at the liveness of the two peers, then at the index ahead (what a stage does before giving up waiting)
+            COp::Alive => { let _ = p.is_work_alive(); let _ = p.is_cons_alive(); }
             COp::DropIt => { it = None; }
             _ => {}
         }
@@ -186,6 +188,7 @@ fn run_work(w: WorkIter<'static, Buf>, ops: Vec<COp>, logs: Arc<Mutex<Logs>>, le
             COp::WorkAvail => edit(w, None, false),
             COp::WorkOne => edit(w, None, true),
             COp::Avail => { let _ = w.available(); }
+            COp::Alive => { let _ = w.is_prod_alive(); let _ = w.is_cons_alive(); }
             COp::DetWork { adv, back } => {
                 // look ahead with a detached iterator, come back, process, publish once
                 let wi = it.take().unwrap();
@@ -258,6 +261,7 @@ fn run_cons<const W: bool>(c: ConsIter<'static, Buf, W>, ops: Vec<COp>, logs: Ar
                 }
             }
             COp::Avail => { let _ = c.available(); }
+            COp::Alive => { let _ = c.is_prod_alive(); let _ = c.is_work_alive(); }
             COp::DropIt => { it = None; }
             _ => {}
         }
@@ -337,6 +341,7 @@ fn execute(pr: &Program) -> Verdict {
     let mut v: Vec<(String, String)> = l.complaints.clone();
     for r in &s.races { v.push(("C03".into(), format!("data race: {r}"))); }
     for u in &s.uaf { v.push(("C07".into(), format!("use after release: {u}"))); }
+    for u in &s.dead_obs { v.push(("C07".into(), format!("observed dead without its publications: {u}"))); }
     if let Some(h) = &s.hung { v.push(("C10".into(), h.clone())); }
     if s.freed != 1 { v.push(("C07".into(), format!("the heap buffer was released {} time(s) after all iterators were dropped (must be exactly 1)", s.freed))); }
     // C02: what the consumer observed is, in order, the accepted pushes with the worker's transformation applied to each
@@ -382,9 +387,9 @@ fn gen_program(rng: &mut Rng, seed: u64) -> Program {
     let mut vals = |n: usize| -> Vec<u64> { (0..n).map(|_| { next += 1; next }).collect() };
     let np = rng.range(2, 6); let nc = rng.range(2, 6); let nw = rng.range(2, 5);
     let mut p = vec![]; let mut w = vec![]; let mut c = vec![];
-    for _ in 0..np { p.push(match rng.below(10) { 0..=3 => COp::Push(vals(1)[0]), 4..=6 => COp::PushS(vals(rng.range(1, len - 1).max(1))), 7 => COp::PushZeroCopy(vals(rng.range(1, len - 1).max(1))), 8 => COp::PushUntil(vals(rng.range(1, len - 1).max(1))), _ => COp::Avail }); }
-    for _ in 0..nw { w.push(match rng.below(10) { 0..=2 => COp::WorkOne, 3..=5 => COp::Work(rng.range(1, len - 1).max(1)), 6 | 7 => COp::WorkAvail, 8 => COp::DetWork { adv: rng.range(1, len - 1).max(1), back: rng.range(0, 2) }, _ => COp::Avail }); }
-    for _ in 0..nc { c.push(match rng.below(12) { 0..=2 => COp::Pop, 3 => COp::CopyItem, 4..=6 => COp::CopyS(rng.range(1, len - 1).max(1)), 7 | 8 => COp::PeekAdv(rng.range(1, len - 1).max(1)), 9 => COp::PeekOneAdv, 10 => if rng.chance(1, 2) { COp::Avail } else { COp::CopyUntil(rng.range(1, len - 1).max(1)) }, _ => if rng.chance(2, 3) { COp::Reset } else { COp::Pop } }); }
+    for _ in 0..np { p.push(match rng.below(10) { 0..=3 => COp::Push(vals(1)[0]), 4..=6 => COp::PushS(vals(rng.range(1, len - 1).max(1))), 7 => COp::PushZeroCopy(vals(rng.range(1, len - 1).max(1))), 8 => COp::PushUntil(vals(rng.range(1, len - 1).max(1))), _ => if rng.chance(1, 2) { COp::Avail } else { COp::Alive } }); }
+    for _ in 0..nw { w.push(match rng.below(10) { 0..=2 => COp::WorkOne, 3..=5 => COp::Work(rng.range(1, len - 1).max(1)), 6 | 7 => COp::WorkAvail, 8 => COp::DetWork { adv: rng.range(1, len - 1).max(1), back: rng.range(0, 2) }, _ => if rng.chance(1, 2) { COp::Avail } else { COp::Alive } }); }
+    for _ in 0..nc { c.push(match rng.below(12) { 0..=2 => COp::Pop, 3 => COp::CopyItem, 4..=6 => COp::CopyS(rng.range(1, len - 1).max(1)), 7 | 8 => COp::PeekAdv(rng.range(1, len - 1).max(1)), 9 => COp::PeekOneAdv, 10 => match rng.below(3) { 0 => COp::Avail, 1 => COp::Alive, _ => COp::CopyUntil(rng.range(1, len - 1).max(1)) }, _ => if rng.chance(2, 3) { COp::Reset } else { COp::Pop } }); }
     // sometimes drop early (survivors keep operating)
     if rng.chance(1, 4) { let k = rng.below(p.len() + 1); p.insert(k, COp::DropIt); p.truncate(k + 1); }
     if rng.chance(1, 5) { let k = rng.below(c.len() + 1); c.insert(k, COp::DropIt); c.truncate(k + 1); }
